@@ -15,7 +15,7 @@ GenNext == UNCHANGED z
 Out(x) == PrintT(<<"GEN", ToJson(x)>>)
 
 WithSize(v) ==
-    CASE v.c = "frame" -> [c |-> "frame", t |-> v.t, x |-> v.x, size |-> Size(v), max |-> MaxSize(v), kind |-> TypeName(v.t)]
+    CASE v.c = "frame" -> [c |-> "frame", t |-> v.t, x |-> v.x, size |-> Size(v), max |-> MaxSize(v), kind |-> TypeName(v.t), pts |-> Permitted(v.t)]
       [] v.c = "hdr" -> [c |-> "hdr", h |-> v.h, size |-> IF HasSize(v.h.k) THEN HdrSize(v.h) ELSE Len(EncodeHeader(v.h))]
       [] v.c = "prim" -> [c |-> "prim", p |-> v.p, x |-> v.x, size |-> FieldSize(PrimDesc(v.p), v.x)]
       [] v.c = "params" -> [c |-> "params", role |-> v.role, ps |-> v.ps, size |-> Len(EncodeParams(v.ps))]
@@ -31,8 +31,10 @@ MutAlphabet == Alphabet \cup CidBytes
 \* varint fields all sit at the same boundary, plus the rejected-by-construction values
 Diag(fr) == \A i, j \in 1..Len(fr.x) : (Layout(fr.t)[i][1] = "v" /\ Layout(fr.t)[j][1] = "v") => fr.x[i] = fr.x[j]
 MutFrames(u) == { fr \in FrameVals : Small(fr) /\ (Diag(fr) \/ fr.t \in {2, 3, 24, 28}) } \cup RejectedFrameVals
-FrameMutants(u) == UNION { Mutations(EncodeFrame(fr), MutAlphabet) \cup {EncodeFrame(fr)} : fr \in MutFrames(u) }
-EmitFrameMut == z = 0 => \A s \in FrameMutants(z) : Out([c |-> "in_frame", b |-> s])
+\* (nested quantifiers instead of one big UNION: TLC would sort ~10^6 sequences to normalise the union; duplicates are
+\*  removed by the collector)
+EmitFrameMut == z = 0 => \A fr \in MutFrames(z) : \A s \in Mutations(EncodeFrame(fr), MutAlphabet) \cup {EncodeFrame(fr)} :
+                             Out([c |-> "in_frame", b |-> s])
 
 \* datagrams: every header kind with Length and a 20 / 21 byte payload; mutated; and pairs coalesced
 Pkt(h, n) ==
@@ -44,12 +46,13 @@ Datagrams(u) ==
     \cup { Pkt(h, 20) \o Pkt(g, 22) : h \in { x \in SmallHdrs(u) : x.k \in {"initial", "handshake"} /\ Len(x.tok) <= 1 /\ Len(x.dcid) = 8 /\ Len(x.scid) = 8 },
                                       g \in { x \in SmallHdrs(u) : Len(x.tok) <= 1 /\ Len(x.dcid) = 8 /\ Len(x.scid) \in {0, 8} } }
 MutDatagrams(u) == { Pkt(h, 20) : h \in { x \in SmallHdrs(u) : Len(x.tok) <= 1 } }
-DgramInputs(u) == Datagrams(u) \cup UNION { Mutations(d, MutAlphabet) : d \in MutDatagrams(u) } \cup StrsUpTo(Alphabet, 2)
-EmitDgram == z = 0 => \A s \in DgramInputs(z) : Out([c |-> "in_dgram", b |-> s])
+OutD(s) == Out([c |-> "in_dgram", b |-> s])
+EmitDgram == z = 0 => /\ \A s \in Datagrams(z) \cup StrsUpTo(Alphabet, 2) : OutD(s)
+                      /\ \A d \in MutDatagrams(z) : \A s \in Mutations(d, MutAlphabet) : OutD(s)
 
 \* transport parameters: the encodings of the C05 sets, mutated
 SmallParams(u) == { p \in ParamVals : \A i \in 1..Len(p.ps) : PType(p.ps[i].id) = "bytes" => Len(p.ps[i].val) <= 64 }
-ParamInputs(u) == UNION { Mutations(EncodeParams(p.ps), MutAlphabet) \cup {EncodeParams(p.ps)} : p \in SmallParams(u) }
-              \cup StrsUpTo(Alphabet, 3)
-EmitParams == z = 0 => \A s \in ParamInputs(z) : Out([c |-> "in_params", b |-> s])
+OutP(s) == Out([c |-> "in_params", b |-> s])
+EmitParams == z = 0 => /\ \A s \in StrsUpTo(Alphabet, 3) : OutP(s)
+                       /\ \A p \in SmallParams(z) : \A s \in Mutations(EncodeParams(p.ps), MutAlphabet) \cup {EncodeParams(p.ps)} : OutP(s)
 =============================================================================
